@@ -3,7 +3,7 @@
    the logical trie a root resolves to is `open_root`.  That a committed hash is the canonical Merkle-Patricia root
    of the resolved content is C06's trie_canonical (Properties/C06.v), restated here as root_is_mpt. *)
 From Coq Require Import List NArith Bool Arith Lia.
-From Verif Require Import Trie.Model Trie.Keys Trie.ProofsWf Trie.Theorems Store.Model Store.Proofs.
+From Verif Require Import Trie.Model Trie.Keys Trie.ProofsWf Trie.Theorems Store.Model Store.Proofs Store.ProofsCommit.
 Import ListNotations.
 Open Scope N_scope.
 
@@ -25,6 +25,27 @@ Section C12.
     expand V f (cached_get V cache (sget V s name)) [] (SRef v) = open_root V f s name v.
   Proof. intros H. exact (resolve_independent_of_cache_lemma V f cache (sget V s name) [] (SRef v) H). Qed.
 
+  (* ---- what a commit writes (hasher.store, transcribed as Store/Model.v wstore) ----
+     A handle holds a working trie n (nodes with dirty/clean flags, references) that is coherent with the store (every
+     clean node's blob in the store is its encoding) and denotes the logical trie t.  Trie.Commit(newVer) at a fresh
+     version: the root written by hasher.store — standalone nodes are the root, full nodes with a hash (`big`), every
+     node when hashes are skipped; short nodes below the root stay embedded; clean subtrees are referenced, not
+     rewritten — read back through the store resolves to exactly t, and the handle with its new flags still denotes
+     t and is coherent with the new store (so the next commit starts from the same invariant).  For every choice of
+     `big` (which full nodes are large enough to be hashed) and both hashed and hash-skipped tries. *)
+  Theorem commit_reads_back (s : store V) name newv big skip n t :
+    (forall p, sget V s name p newv = None) ->
+    Coh V (sget V s name) [] n -> WRes V (sget V s name) [] n t -> is_inner V n ->
+    let n' := fst (wstore V big skip newv [] n) in
+    let s' := commit V s name newv (snd (wstore V big skip newv [] n)) in
+    Res V (sget V s' name) [] (SRef newv) t /\ Coh V (sget V s' name) [] n' /\ WRes V (sget V s' name) [] n' t.
+  Proof. exact (commit_reads_back_lemma V s name newv big skip n t). Qed.
+
+  (* the fuel-based open_root and the resolution relation agree *)
+  Theorem open_root_resolves f (s : store V) name v t :
+    open_root V f s name v = Some t -> Res V (sget V s name) [] (SRef v) t.
+  Proof. exact (expand_Res V f (sget V s name) [] (SRef v) t). Qed.
+
   (* ---- pruning ---- *)
   (* full statement (not proved): after checkpointing root (target-1) of the pruned chain and deleting [base,target),
      every root with major >= target that descends from block target-1 resolves to the same trie *)
@@ -34,6 +55,18 @@ Section C12.
       (* cps are the checkpoints of the tries of root (target-1), v descends from it *)
       open_root V f s name v = Some t ->
       open_root V f (prune V s cps base target) name v = Some t.
+
+  (* proved, conditional on the reachability lemma: if every reference followed while resolving a root survives the
+     round — its node is stored at a version outside the deleted partitions, or the deduped space holds exactly its
+     blob under its path after the checkpoints (and it is not an account/index root) — the root resolves to the
+     same trie after checkpoint + delete.  What is NOT proved is that the real checkpoint (iterator over root
+     target-1 with the version filter) establishes `survives` for every root >= target descending from block target-1;
+     that needs the history of the chain (a node older than target referenced from a later root is the node at that
+     path in root target-1). *)
+  Theorem prune_preserves_recent_cond (s : store V) cps base target name p n t :
+    ResC V (survives V s cps base target name) (sget V s name) p n t ->
+    Res V (sget V (prune V s cps base target) name) p n t.
+  Proof. exact (prune_preserves_resolution V s cps base target name p n t). Qed.
 
   (* proved part 1: with an aligned target, every node written at a version >= target is still served from the
      hist space, unchanged (whatever was checkpointed); what is missing for the full statement is the reachability
@@ -70,6 +103,15 @@ Proof. intros p. destruct p; reflexivity. Qed.
 Example ex_open : open_root nat 5 ex_store 0 (3, 0) = Some (Short [1%nat; 16%nat] (Value 7%nat)).
 Proof. vm_compute. reflexivity. Qed.
 
+(* a working trie coherent with ex_store: the root loaded from version (3,0); committing it at the fresh version (5,0) *)
+Definition ex_w : wnode nat := WShort [1%nat; 16%nat] (WValue 7%nat) (Clean (3, 0)).
+Example ex_coh : Coh nat (sget nat ex_store 0) [] ex_w /\ WRes nat (sget nat ex_store 0) [] ex_w (Short [1%nat; 16%nat] (Value 7%nat)) /\ is_inner nat ex_w.
+Proof.
+  split; [|split; [|exact I]].
+  - constructor; [discriminate|constructor|]. intros v E. inversion E; subst. reflexivity.
+  - repeat constructor.
+Qed.
+
 Example ex_aligned : 0 < hf nat ex_store /\ 8 mod hf nat ex_store = 0.
 Proof. split; vm_compute; reflexivity. Qed.
 
@@ -78,6 +120,9 @@ Proof. split; vm_compute; reflexivity. Qed.
 
 Print Assumptions commit_preserves_roots.
 Print Assumptions resolve_independent_of_cache.
+Print Assumptions commit_reads_back.
+Print Assumptions open_root_resolves.
+Print Assumptions prune_preserves_recent_cond.
 Print Assumptions prune_preserves_recent_partial.
 Print Assumptions pruned_root_fails_partial.
 Print Assumptions root_is_mpt.
